@@ -33,6 +33,9 @@ def gen_cases(tier, seed):
     rng = np.random.default_rng(10_000 + seed)
     n_mesh = 10 if tier == "quick" else 60
     specs = meshzoo.gen_mesh_specs(rng, n_mesh, max_sites=250 if tier == "quick" else 700, include_explicit=False)
+    for j in range(2 if tier == "quick" else 8):
+        specs.append({"kind": "explicit", "base": {"kind": "grid", "nx": int(rng.integers(4, 8)), "ny": int(rng.integers(4, 7))}, "decades": 2,
+                      "zero_duals": float(rng.choice([0.1, 0.3])), "seed": int(rng.integers(1 << 30))})
     cases = []
     for s in specs:
         for pin in ("none", "fixed", "fixed_nofix", "empty"):
